@@ -1,0 +1,23 @@
+//go:build verif
+
+// Contracts for package device, read as text by /verif/engine (govc); no code.
+
+package device
+
+//@ mode bv
+
+// the ordering sort.Sort is given for the driver list: by detection order (signed), nothing else
+//@ func (l DriverInfoList) Len() (n int)
+//@   property C16
+//@   ensures n == len(l)
+
+//@ func (l DriverInfoList) Less(i int, j int) (r bool)
+//@   property C16
+//@   requires 0 <= i && i < len(l) && 0 <= j && j < len(l) && l[i] != nil && l[j] != nil
+//@   ensures r == (l[i].Order < l[j].Order)
+
+//@ func (l DriverInfoList) Swap(i int, j int)
+//@   property C16
+//@   requires 0 <= i && i < len(l) && 0 <= j && j < len(l)
+//@   modifies l[i], l[j]
+//@   ensures l[i] == old(l[j]) && l[j] == old(l[i])
